@@ -38,10 +38,12 @@ variable {D : Type}
 
 /-- sqlite rows hold exact integer µs; reading goes through `datetime.fromtimestamp(v / 1e6)`
     twice, a subtraction and the ms floor of the `Event` constructor: the identity for ms-aligned
-    starts `≥ 1970` with non-negative duration ending before 2^32·10^6 µs (2106-02-07) -/
-theorem sqlite_roundtrip (e : Ev D) (h0 : 0 ≤ e.ts) (hms : 1000 ∣ e.ts) (hd : 0 ≤ e.dur)
+    starts later than −2^32·10^6 µs (1833-11-24: every wall-clock date of 1970 at any UTC offset is
+    covered, also where its UTC instant precedes the epoch) with non-negative duration ending before
+    2^32·10^6 µs (2106-02-07) -/
+theorem sqlite_roundtrip (e : Ev D) (h0 : -(2 ^ 32 * 10 ^ 6) < e.ts) (hms : 1000 ∣ e.ts) (hd : 0 ≤ e.dur)
     (h1 : e.ts + e.dur < 2 ^ 32 * 10 ^ 6) : Codec.sqliteDecode e = e :=
-  Codec.sqliteDecode_id e h0 hms hd (by omega)
+  Codec.sqliteDecode_id e (by omega) hms hd (by omega)
 
 /-- peewee stores `duration.total_seconds()` (a double) and reads `timedelta(seconds=float)`:
     the identity on every duration of 0 … 2^43 µs (≈ 101 days) at microsecond granularity -/
@@ -89,7 +91,7 @@ theorem get_after_insert_sqlite {s s' : Sqlite.St D} {b : String} {e : Ev D} {i 
     ∃ m es, Sqlite.view s b = some (m, es) ∧
       Sqlite.view s' b = some (m, es ++ [{ e with id := some i }]) ∧
       Sqlite.getEvent s' b i = some { e with id := some i } ∧
-      (0 ≤ e.ts → 1000 ∣ e.ts → 0 ≤ e.dur → e.ts + e.dur < 2 ^ 32 * 10 ^ 6 →
+      (-(2 ^ 32 * 10 ^ 6) < e.ts → 1000 ∣ e.ts → 0 ≤ e.dur → e.ts + e.dur < 2 ^ 32 * 10 ^ 6 →
         (Sqlite.getEvent s' b i).map Codec.sqliteDecode = some { e with id := some i } ∧
         (es ++ [{ e with id := some i }]).map Codec.sqliteDecode =
           es.map Codec.sqliteDecode ++ [{ e with id := some i }]) := by
@@ -117,7 +119,7 @@ theorem bulk_insert_sqlite {s s' : Sqlite.St D} {b : String} {evs : List (Ev D)}
       (∀ i ∈ ids, ∀ b', i ∉ Spec.ids (Sqlite.view s) b') ∧
       Sqlite.view s' b = some (m, es ++ (evs.zip ids).map (fun p => { p.1 with id := some p.2 })) ∧
       (∀ p ∈ evs.zip ids, Sqlite.getEvent s' b p.2 = some { p.1 with id := some p.2 }) ∧
-      ((∀ e ∈ evs, 0 ≤ e.ts ∧ 1000 ∣ e.ts ∧ 0 ≤ e.dur ∧ e.ts + e.dur < 2 ^ 32 * 10 ^ 6) →
+      ((∀ e ∈ evs, -(2 ^ 32 * 10 ^ 6) < e.ts ∧ 1000 ∣ e.ts ∧ 0 ≤ e.dur ∧ e.ts + e.dur < 2 ^ 32 * 10 ^ 6) →
         ((evs.zip ids).map (fun p => { p.1 with id := some p.2 })).map Codec.sqliteDecode =
           (evs.zip ids).map (fun p => { p.1 with id := some p.2 })) := by
   obtain ⟨ids, hlen, hnd, hfresh, hv⟩ := Sqlite.insertMany_view hI hb h
@@ -346,6 +348,9 @@ example : Codec.sqliteDecode (⟨some 3, 1700000000123000, 1234567, 7⟩ : Ev Na
   sqlite_roundtrip _ (by decide) (by decide) (by decide) (by decide)
 example : Codec.sqliteDecode (⟨none, 2250741852732000, 2193231764772, ()⟩ : Ev Unit) =
     ⟨none, 2250741852732000, 2193231764772, ()⟩ :=
+  sqlite_roundtrip _ (by decide) (by decide) (by decide) (by decide)
+/-- 1970-01-01T00:30+01:00: the wall-clock date is in 1970, the UTC instant is 30 minutes before the epoch -/
+example : Codec.sqliteDecode (⟨some 1, -1800000000, 60000001, ()⟩ : Ev Unit) = ⟨some 1, -1800000000, 60000001, ()⟩ :=
   sqlite_roundtrip _ (by decide) (by decide) (by decide) (by decide)
 example : Codec.peeweeDur 2592000000001 = 2592000000001 :=
   peewee_duration_roundtrip _ (by decide) (by decide)
